@@ -83,7 +83,7 @@ BUILTINS = {
     "enumerate", "zip", "map", "sorted", "reversed", "print", "type", "callable", "iter",
     "next", "super", "repr", "round", "divmod", "pow", "id", "frozenset", "bytes",
     "ValueError", "TypeError", "RuntimeError", "NotImplementedError", "KeyError",
-    "AttributeError", "Exception", "ImportError", "delattr", "vars", "filter",
+    "AttributeError", "Exception", "ImportError", "delattr", "vars", "filter", "slice",
 }
 MAX_INLINE_STMTS = 60
 
@@ -115,8 +115,11 @@ class Evaluator:
     """One evaluator per analysed entry function; the heap (attribute stores on
     tracked objects and on ``self``) is shared across inlined callees."""
 
-    def __init__(self, repo: Repo, max_depth: int = 3, inline=None, no_inline=(), opaque_methods=()):
+    def __init__(self, repo: Repo, max_depth: int = 3, inline=None, no_inline=(), opaque_methods=(),
+                 assume=None, batch_params=()):
         self.repo = repo
+        self.assume = assume  # callable(cond term) -> True / False / None
+        self.batch_params = tuple(batch_params)
         self.max_depth = max_depth
         self.inline_pred = inline
         self.no_inline = set(no_inline)
@@ -275,9 +278,15 @@ class Frame:
         else:
             ev.notes.append(f"unhandled statement {type(s).__name__} at {self.f.module.relpath}:{s.lineno}")
 
+    def decide(self, cond):
+        d = decide(cond)
+        if d is None and self.ev.assume is not None:
+            d = self.ev.assume(cond)
+        return d
+
     def exec_if(self, s: ast.If, st: State):
         cond = self.eval(s.test, st)
-        dec = decide(cond)
+        dec = self.decide(cond)
         if dec is True:
             self.exec_block(s.body, st)
             return
@@ -434,7 +443,7 @@ class Frame:
             return mk_or(vals)
         if isinstance(e, ast.IfExp):
             c = self.eval(e.test, st)
-            d = decide(c)
+            d = self.decide(c)
             if d is True:
                 return self.eval(e.body, st)
             if d is False:
@@ -469,6 +478,8 @@ class Frame:
                 for k, v in base[1]:
                     if k == idx:
                         return v
+            if isinstance(base, tuple) and base[0] == "attr" and base[2] == "shape" and T.const_value(idx) == 0:
+                return T.app("len", batch_root(base[1], ev.batch_params))
             if isinstance(base, tuple) and base[0] == "phi":
                 # distribute tuple projection over phi
                 cv = T.const_value(idx)
@@ -729,7 +740,7 @@ class Frame:
                 m = cls.resolve("__len__")
                 if m is not None and self._may_inline(m):
                     return self._inline(m, cls, args[0], [], {}, e)
-            return T.app("len", args[0])
+            return T.app("len", batch_root(args[0], ev.batch_params))
         if name in ("float", "int") and len(args) == 1:
             if name == "float" and args[0][0] == "k" and isinstance(args[0][1], str):
                 return T.atom(f"float({args[0][1]!r})")
@@ -739,6 +750,11 @@ class Frame:
             return T.app(f"{name}2", a, b)
         if name == "abs" and len(args) == 1:
             return T.app("abs", args[0])
+        if name == "slice" and 1 <= len(args) <= 3 and not kwargs:
+            if len(args) == 1:
+                return ("slice", T.NONE, args[0], T.NONE)
+            a3 = list(args) + [T.NONE] * (3 - len(args))
+            return ("slice", a3[0], a3[1], a3[2])
         if name == "isinstance" and len(args) == 2:
             return ("f", "isinstance", tuple(args), ())
         if name == "getattr" and len(args) >= 2 and args[1][0] == "k":
@@ -779,24 +795,8 @@ class Frame:
         return self._event(full, args, kwargs, e, None, pure=True)
 
     def canon(self, cname, args, kwargs, e):
-        args = list(args)
-        kw = dict(kwargs)
-        kw.pop("device", None)
-        kw.pop("dtype", None)
-        if cname in REDUCTIONS:
-            if len(args) >= 2:
-                kw.setdefault("axis", args[1])
-                args = args[:1]
-            if "dim" in kw:
-                kw["axis"] = kw.pop("dim")
-            if kw.get("axis") == T.NONE:
-                kw.pop("axis")
-        if cname == "square" and len(args) == 1 and T.is_numeric(args[0]):
-            return T.powi(args[0], 2)
-        if cname == "logsumexp" and len(args) == 1:
-            return lse(args[0], kw.get("axis"))
-        t = ("f", cname, tuple(args), tuple(sorted(kw.items())))
-        self._record(cname, args, kw, e, t, None)
+        t = norm_app(cname, args, kwargs)
+        self._record(cname, args, kwargs, e, t, None)
         return t
 
     def call_attr(self, recv, attr, args, kwargs, e, st):
@@ -982,8 +982,114 @@ class Frame:
 def lse(x, axis=None):
     """Canonical expansion of a max-shifted logsumexp."""
     kw = {} if axis in (None, T.NONE) else {"axis": axis}
-    c = T.app("max", x)
-    return T.add(c, T.app("log", T.app("sum", T.app("exp", T.sub(x, c)), **kw)))
+    c = norm_app("max", [x])
+    return T.add(c, norm_app("log", [norm_app("sum", [norm_app("exp", [T.sub(x, c)])], kw)]))
+
+
+def norm_app(cname, args, kwargs=None):
+    """Canonical application of a canonical function name (shared by the
+    evaluator and the spec language)."""
+    args = list(args)
+    kw = dict(kwargs or {})
+    kw.pop("device", None)
+    kw.pop("dtype", None)
+    if cname in REDUCTIONS:
+        if len(args) >= 2:
+            kw.setdefault("axis", args[1])
+            args = args[:1]
+        if "dim" in kw:
+            kw["axis"] = kw.pop("dim")
+        if kw.get("axis") == T.NONE:
+            kw.pop("axis")
+    if cname == "square" and len(args) == 1 and T.is_numeric(args[0]):
+        return T.powi(args[0], 2)
+    if cname == "logsumexp" and len(args) == 1:
+        return lse(args[0], kw.get("axis"))
+    if cname == "exp" and len(args) == 1 and not kw:
+        r = exp_norm(args[0])
+        if r is not None:
+            return r
+    if cname == "log" and len(args) == 1 and not kw:
+        a0 = args[0]
+        if a0[0] == "f" and a0[1] == "exp" and len(a0[2]) == 1:
+            return a0[2][0]
+    if cname in ("sum", "mean") and len(args) == 1 and T.is_poly(args[0]) and args[0][1]:
+        lead = args[0][1][0][1]
+        if lead != 1:
+            inner = T.div(args[0], T.const(lead))
+            return T.mul(T.const(lead), ("f", cname, (inner,), tuple(sorted(kw.items()))))
+    if cname in ("erf", "erfinv") and len(args) == 1:
+        other = "erfinv" if cname == "erf" else "erf"
+        a0 = args[0]
+        if a0[0] == "f" and a0[1] == other and len(a0[2]) == 1:
+            return a0[2][0]
+    if cname in ("zeros", "zeros_like"):
+        return T.ZERO  # broadcast view: an array of zeros is the value 0
+    if cname in ("ones", "ones_like"):
+        return T.ONE  # broadcast view: an array of ones is the value 1
+    return ("f", cname, tuple(args), tuple(sorted(kw.items())))
+
+
+ELEMENTWISE = {"exp", "log", "sqrt", "abs", "erf", "erfinv", "clip", "mod", "where", "update_at",
+               "isnan", "isfinite", "sign", "tanh", "arctanh", "maximum", "minimum", "pow", "div"}
+
+
+def batch_root(t, batch_params):
+    """``len`` of an element-wise expression is the ``len`` of the batch array it
+    is built from: the first *batch parameter* atom reached through
+    element-wise structure (never through a reduction)."""
+    if not batch_params:
+        return t
+    names = set(batch_params)
+    stack = [t]
+    seen = set()
+    while stack:
+        x = stack.pop(0)
+        if not isinstance(x, tuple) or not x or x in seen:
+            continue
+        seen.add(x)
+        k = x[0]
+        if k == "a" and x[1] in names:
+            return x
+        if k == "p":
+            for m, _ in x[1]:
+                for b, _e in m:
+                    stack.append(b)
+        elif k == "f" and x[1] in ELEMENTWISE:
+            stack.extend(x[2])
+        elif k == "phi":
+            stack.extend([x[2], x[3]])
+        elif k == "s":
+            # row-preserving column selection x[..., mask] / x[:, mask]
+            idx = x[2]
+            if idx[0] == "t" and idx[1] and all(i == ("k", Ellipsis) or (i[0] == "slice" and i[1:] == (T.NONE,) * 3) for i in idx[1][:-1]):
+                stack.append(x[1])
+    return t
+
+
+def exp_norm(arg):
+    """exp(sum_i c_i*log(t_i) + r) = prod_i t_i**c_i * exp(r)   (integer c_i, t_i > 0)."""
+    if not T.is_poly(arg):
+        if arg[0] == "f" and arg[1] == "log" and len(arg[2]) == 1 and not arg[3]:
+            return arg[2][0]
+        return None
+    prod = T.ONE
+    rest = {}
+    hit = False
+    for m, c in arg[1]:
+        if len(m) == 1 and m[0][1] == 1 and m[0][0][0] == "f" and m[0][0][1] == "log" and len(m[0][0][2]) == 1 \
+                and not m[0][0][3] and T.Fraction(c).denominator == 1 and abs(int(c)) <= 4:
+            inner = m[0][0][2][0]
+            prod = T.mul(prod, T.powi(inner, int(c)))
+            hit = True
+        else:
+            rest[m] = c
+    if not hit:
+        return None
+    r = T._mk(rest)
+    if r == T.ZERO:
+        return prod
+    return T.mul(prod, ("f", "exp", (r,), ()))
 
 
 def is_namespace(t) -> bool:
